@@ -135,7 +135,6 @@ Theorem pretty_children fuel ob g st :
 Proof.
   intros Hr He H. rewrite pretty_indices_unfold in H.
   destruct (roots_loop ob fuel _ (init_state g 0)) as [s1| |] eqn:E; cbn [bind] in H; try discriminate.
-  assert (Hord : forall b0, vget g 0 = Some b0 -> order_ok [] g true (s_children b0)) by (intros; apply order_ok_nil).
   assert (HA : forall i, preserves (fun s => grel g (st_gr s)) (assign i)).
   { intros i s s' Ha HG. rewrite (assign_gr _ _ _ Ha). exact HG. }
   assert (HR : forall i s, grel g (st_gr s) -> grel g (st_gr (rebuild_at ob [] i s))).
